@@ -9,7 +9,8 @@
      * a string at `string` / `binary` is its bytes with the IDL escapes resolved;
      * an enum-typed value is written as the qualified member name or as the declared number of a member; a member
        name at an integer type is its number;
-     * a reference to a constant is the constant's value (its type must agree with the target up to typedefs);
+     * a reference to a constant is the constant's value (its type must agree with the target up to typedefs; a constant
+       of enum type may also be used as its number at an integer type);
      * `[..]` at list / set, `{k: v, ..}` at map (and `[]` for the empty map), element by element;
      * `{"field": v, ..}` at a struct: named members get their values, an optional member that is not named stays
        unset, a required member that is not named holds its type's empty value;
@@ -130,7 +131,15 @@ Section Spec.
       match l with
       | LConst c =>
           match nth_error (ls_consts S) c with
-          | Some (ct, _) => if ty_eqb (snorm (erase ct)) (snorm t) then cv c else None
+          | Some (ct, _) =>
+              if ty_eqb (snorm (erase ct)) (snorm t) then cv c
+              else
+                (* a constant of enum type used as a number *)
+                match snorm (erase ct), cv c with
+                | TyRef e, Some (GEnum z) =>
+                    match sitem e with Some (IEnum _) => int_at (sresolve t) z | _ => None end
+                | _, _ => None
+                end
           | None => None
           end
       | LMember e m =>
